@@ -46,9 +46,31 @@ def repl? : Sexp → Option Repl
   | .list [.atom "newCallable", b] => b.bool?.map .newCallable
   | _ => none
 
+def rkind? : Sexp → Option RKind
+  | .atom "plain" => some .plain
+  | .atom "none" => some .none
+  | .atom "falsy" => some .falsy
+  | .atom "constFuture" => some .constFuture
+  | .atom "lazyFuture" => some .lazyFuture
+  | .atom "errorFuture" => some .errorFuture
+  | .atom "task" => some .task
+  | .atom "excInstance" => some .excInstance
+  | .atom "exotic" => some .exotic
+  | .atom "container" => some .container
+  | _ => none
+
+def ekind? : Sexp → Option EKind
+  | .atom "exception" => some .exception
+  | .atom "baseOnly" => some .baseOnly
+  | .atom "falsy" => some .falsy
+  | .atom "builtinSub" => some .builtinSub
+  | _ => none
+
 def behav? : Sexp → Option Behav
-  | .list [.atom "ret", n] => n.nat?.map .ret
-  | .list [.atom "raise", n] => n.nat?.map .raise
+  | .list [.atom "ret", n] => n.nat?.map (Behav.ret · .plain)
+  | .list [.atom "ret", n, k] => do some (.ret (← n.nat?) (← rkind? k))
+  | .list [.atom "raise", n] => n.nat?.map (Behav.raise · .exception)
+  | .list [.atom "raise", n, k] => do some (.raise (← n.nat?) (← ekind? k))
   | _ => none
 
 def kw? : Sexp → Option (List (Nat × Nat))
@@ -61,6 +83,10 @@ def op? : Sexp → Option Op
   | .list [.atom "construct", p, t, r, c, a, o, b] => do
     some (.construct (← p.nat?) { target := (← t.nat?), repl := (← repl? r), create := (← c.bool?),
                                   autospecNone := (← a.bool?), viaObject := (← o.bool?), behav := (← behav? b) })
+  | .list [.atom "construct", p, t, r, c, a, o, b, .list [.atom "share", q]] => do
+    some (.construct (← p.nat?) { target := (← t.nat?), repl := (← repl? r), create := (← c.bool?),
+                                  autospecNone := (← a.bool?), viaObject := (← o.bool?), behav := (← behav? b),
+                                  share := some (← q.nat?) })
   | .list [.atom "enter", p] => p.nat?.map .enter
   | .list [.atom "exit", p, e] => do some (.exit (← p.nat?) (← e.bool?))
   | .list [.atom "start", p] => p.nat?.map .start
@@ -68,6 +94,7 @@ def op? : Sexp → Option Op
   | .list [.atom "stopall"] => some .stopall
   | .list [.atom "call", t, a, k] => do some (.call (← t.nat?) (← a.natList?) (← kw? k))
   | .list [.atom "peek"] => some .peek
+  | .list [.atom "rebind", s, t] => do some (.rebind (← s.nat?) (← t.nat?))
   | _ => none
 
 def objId? : Sexp → Option ObjId
@@ -96,14 +123,16 @@ def peek? : Sexp → Option (Option Tok)
   | s => (tok? s).map some
 
 def exc? : List Sexp → Exc
-  | [.atom "user", n] => match n.nat? with | some e => .user e | none => .other
+  | [.atom "user", n] => match n.nat? with | some e => .user e .exception | none => .other
+  | [.atom "user", n, k] => match n.nat?, ekind? k with | some e, some k => .user e k | _, _ => .other
   | [.atom "typeError"] => .typeError
   | [.atom "attributeError"] => .attributeError
   | [.atom "valueError"] => .valueError
   | _ => .other
 
 def out? : Sexp → Option Out
-  | .list [.atom "ok", r] => r.nat?.map .ok
+  | .list [.atom "ok", r] => r.nat?.map (Out.ok · .plain)
+  | .list [.atom "ok", r, k] => do some (.ok (← r.nat?) (← rkind? k))
   | .list (.atom "raised" :: x) => some (.raised (exc? x))
   | _ => none
 
@@ -153,5 +182,42 @@ def handle (id : Nat) (hdr : List Sexp) (body : List Sexp) : String :=
     let f (s : String) := if s == "ok" then "ok" else "fail:" ++ s
     s!"R {id} CORR={c} SPEC={f spec} SPECM={f specm} | {d}"
   | _, _ => s!"R {id} CORR=diff SPEC=ok SPECM=ok | unparsable case"
+
+/-! mode `mockfail` (family `enterfail`): a new_callable product that `__enter__` cannot decorate; judged by the small
+    model `AsynqModel.Mock.EnterFail` -/
+open AsynqModel.Mock.EnterFail in
+def handleFail (id : Nat) (hdr : List Sexp) (body : List Sexp) : String :=
+  let prod? : Option Product := match hdr with
+    | [.atom "accepting", _] => some .accepting
+    | [.atom "rejecting", _] => some .rejecting
+    | [.atom "noncallable", _] => some .noncallable
+    | _ => none
+  let style? : Option Style := match hdr with
+    | [_, .atom "with"] => some .withBlock
+    | [_, .atom "deco"] => some .deco
+    | [_, .atom "classdeco"] => some .classDeco
+    | [_, .atom "start-stop"] => some .startStop
+    | [_, .atom "start-stopall"] => some .startStopall
+    | _ => none
+  let held? : Sexp → Option Held := fun
+    | .atom "orig" => some .orig
+    | .atom "product" => some .product
+    | .atom "other" => some .other
+    | _ => none
+  let obs? : Option EnterFail.Obs := match body with
+    | [.list [.atom "obs", e, d, a]] => do
+      let during ← match d with
+        | .atom "none" => some none
+        | x => (held? x).map some
+      some { entered := (← e.bool?), during := during, after := (← held? a) }
+    | _ => none
+  match prod?, style?, obs? with
+  | some prod, some style, some impl =>
+    let model := EnterFail.run prod style
+    let c := if model == impl then "ok" else "diff"
+    let d := if model == impl then "" else (s!"model={repr model} impl={repr impl}".replace "\n" " ")
+    let f (s : String) := if s == "ok" then "ok" else "fail:" ++ s
+    s!"R {id} CORR={c} SPEC={f (EnterFail.specClause impl)} SPECM={f (EnterFail.specClause model)} | {d}"
+  | _, _, _ => s!"R {id} CORR=diff SPEC=ok SPECM=ok | unparsable mockfail case"
 
 end AsynqModel.Drv.Mock
